@@ -1,0 +1,15 @@
+// Copyright 2024 The Go Authors. All rights reserved.
+// Use of this source code is governed by a BSD-style
+// license that can be found in the LICENSE file.
+
+//go:build verif
+
+package modfile
+
+// VerifParseSyntax exposes the syntax-only parser to the external
+// verification harness (build tag verif). It lets property checks exercise
+// the lexer, parser and printer on inputs that the directive layer rejects,
+// and observe tokens before the directive layer re-quotes them.
+func VerifParseSyntax(file string, data []byte) (*FileSyntax, error) {
+	return parse(file, data)
+}
